@@ -196,17 +196,17 @@ func DNSHostileSeeds() [][]byte {
 		[]byte{},
 		hdr(0, 0, 0, 0),
 		hdr(1, 0, 0, 0),
-		append(append(hdr(1, 0, 0, 0), 0xc0, 0x0c), tail...),                              // pointer to itself
-		append(append(hdr(1, 0, 0, 0), 0xc0, 0x0e, 0xc0, 0x0c), tail...),                  // two-pointer cycle
-		append(append(hdr(1, 0, 0, 0), 0x01, 'a', 0xc0, 0x0c), tail...),                   // label + pointer back to the label
-		append(append(hdr(1, 0, 0, 0), 0x3f), make([]byte, 63)...),                        // label runs to the end
-		append(append(hdr(1, 0, 0, 0), 0xc0, 0xff), tail...),                              // pointer out of range
-		append(append(hdr(1, 0, 0, 0), 0xff, 0xff), tail...),                              // pointer to 0x3fff
-		append(append(hdr(1, 0, 0, 0), 0x40, 0x00), tail...),                              // reserved label type
-		append(append(hdr(0xffff, 0xffff, 0xffff, 0xffff), 0x00), tail...),                // lying counts
-		append(append(hdr(0, 0, 0, 1), 0x00, 0x00, 0x29, 0x10, 0x00, 0, 0, 0, 0), 0xff, 0xff), // OPT with RDLENGTH 65535 and no data
+		append(append(hdr(1, 0, 0, 0), 0xc0, 0x0c), tail...),                                                                    // pointer to itself
+		append(append(hdr(1, 0, 0, 0), 0xc0, 0x0e, 0xc0, 0x0c), tail...),                                                        // two-pointer cycle
+		append(append(hdr(1, 0, 0, 0), 0x01, 'a', 0xc0, 0x0c), tail...),                                                         // label + pointer back to the label
+		append(append(hdr(1, 0, 0, 0), 0x3f), make([]byte, 63)...),                                                              // label runs to the end
+		append(append(hdr(1, 0, 0, 0), 0xc0, 0xff), tail...),                                                                    // pointer out of range
+		append(append(hdr(1, 0, 0, 0), 0xff, 0xff), tail...),                                                                    // pointer to 0x3fff
+		append(append(hdr(1, 0, 0, 0), 0x40, 0x00), tail...),                                                                    // reserved label type
+		append(append(hdr(0xffff, 0xffff, 0xffff, 0xffff), 0x00), tail...),                                                      // lying counts
+		append(append(hdr(0, 0, 0, 1), 0x00, 0x00, 0x29, 0x10, 0x00, 0, 0, 0, 0), 0xff, 0xff),                                   // OPT with RDLENGTH 65535 and no data
 		append(hdr(0, 0, 0, 2), 0x00, 0x00, 0x29, 0x10, 0x00, 0, 0, 0, 0, 0, 0, 0x00, 0x00, 0x29, 0x10, 0x00, 0, 0, 0, 0, 0, 0), // two OPT records
-		append(hdr(0, 0, 0, 1), 0x00, 0x00, 0x29, 0x10, 0x00, 0, 1, 0, 0, 0, 0),          // EDNS version 1
+		append(hdr(0, 0, 0, 1), 0x00, 0x00, 0x29, 0x10, 0x00, 0, 1, 0, 0, 0, 0),                                                 // EDNS version 1
 	)
 	// chain of 11 and of 200 pointers, then the root
 	for _, n := range []int{10, 11, 200} {
